@@ -148,11 +148,12 @@ def grep_forbidden(files):
     return bad
 
 
-def audit(pid, module, theorems):
+def audit(pid, module, theorems, extra_imports=None):
     """#print axioms on every theorem; returns dict name -> (ok, axioms|error)"""
     if not theorems:
         return {}
-    src = "import %s\n" % module + "".join("#print axioms %s\n" % t for t in theorems)
+    mods = [module] + list(extra_imports or [])
+    src = "".join("import %s\n" % m for m in mods) + "".join("#print axioms %s\n" % t for t in theorems)
     path = os.path.join(LEAN_DIR, '.lake', 'Audit_%s.lean' % pid)
     open(path, 'w').write(src)
     env = dict(os.environ)
@@ -345,3 +346,19 @@ def write_evidence(pid, ev):
         json.dump(ev, f, indent=1, sort_keys=True, default=str)
     os.replace(tmp, path)
     return path
+
+
+def theorems_in(files, namespace):
+    """public theorem names declared in the given Props files (relative to lean/Flowdyn/Props)"""
+    names = []
+    for f in files:
+        path = os.path.join(LEAN_DIR, 'Flowdyn', 'Props', f)
+        try:
+            txt = open(path).read()
+        except OSError:
+            continue
+        txt = re.sub(r'/-.*?-/', '', txt, flags=re.S)
+        for m in re.finditer(r'^(private\s+)?theorem\s+([A-Za-z_][A-Za-z0-9_\.\']*)', txt, re.M):
+            if not m.group(1):
+                names.append(namespace + '.' + m.group(2))
+    return names
